@@ -1,0 +1,51 @@
+//go:build verif
+
+package logic
+
+// Access to the HTTP API server and to the settings the API handlers leave in a
+// group, for the relay / admission checks (properties C17 and C03): the checks
+// send real HTTP requests to a real HttpApiServer (Listen + RunLoop) and read
+// back what reached the group.  Nothing here is compiled without -tags verif.
+
+// VerifAddr is the address the API server listens on (after Listen).
+func (h *HttpApiServer) VerifAddr() string {
+	if h.ln == nil {
+		return ""
+	}
+	return h.ln.Addr().String()
+}
+
+// VerifClose closes the listener, which makes RunLoop return.
+func (h *HttpApiServer) VerifClose() {
+	if h.ln != nil {
+		_ = h.ln.Close()
+	}
+}
+
+// VerifPullSettings returns the relay pull settings of a group that are not
+// part of VerifGroupView: pull timeout and RTSP mode.
+func (sm *ServerManager) VerifPullSettings(streamName string) (pullTimeoutMs int, rtspMode int, ok bool) {
+	sm.mutex.Lock()
+	defer sm.mutex.Unlock()
+	g := sm.getGroup("", streamName)
+	if g == nil {
+		return 0, 0, false
+	}
+	g.mutex.Lock()
+	defer g.mutex.Unlock()
+	return g.pullProxy.pullTimeoutMs, g.pullProxy.rtspMode, true
+}
+
+// VerifPsPubTimeoutSec returns the receive timeout the group keeps for its
+// start_rtp_pub publisher.
+func (sm *ServerManager) VerifPsPubTimeoutSec(streamName string) (uint32, bool) {
+	sm.mutex.Lock()
+	defer sm.mutex.Unlock()
+	g := sm.getGroup("", streamName)
+	if g == nil {
+		return 0, false
+	}
+	g.mutex.Lock()
+	defer g.mutex.Unlock()
+	return g.psPubTimeoutSec, true
+}
